@@ -99,6 +99,8 @@ type Case struct {
 	Clients  []ClientSpec `json:"clients"`
 	Cli      []CliSpec    `json:"cli"`
 	NoPace   bool         `json:"nopace,omitempty"` // targets send their later messages back to back
+	Live        bool      `json:"live,omitempty"`   // the clients subscribe while the later messages are already flowing
+	LiveDelayMS int       `json:"live_delay_ms,omitempty"`
 	Obs      *Obs         `json:"obs,omitempty"`
 }
 
